@@ -36,7 +36,7 @@ pub fn run(ctx: &mut Ctx) {
     for (n, ok) in r9::selftest(false) {
         ctx.selftest(&n, ok);
     }
-    ctx.require(&["ha=q(N-1)+r", "ha_r=0", "ha_r=N-2", "ha_top_limb_ones", "ha_all_ff", "ha_random", "ha_64_bytes", "ha_small", "h1", "h2", "extract_sign", "extract_enc", "extract_exch", "extract_fails_when_t1=0", "extract_ok_next_to_failure", "annex_keys", "id_empty", "id_long", "h1_same_id_all_hids", "ha_r_limb_ladder", "t1_limb_ladder", "t1_carry_chain"]);
+    ctx.require(&["ha=q(N-1)+r", "ha_r=0", "ha_r=N-2", "ha_top_limb_ones", "ha_all_ff", "ha_random", "ha_64_bytes", "ha_small", "h1", "h2", "extract_sign", "extract_enc", "extract_exch", "extract_fails_when_t1=0", "extract_ok_next_to_failure", "annex_keys", "id_empty", "id_long", "h1_same_id_all_hids", "ha_r_limb_ladder", "t1_limb_ladder", "t1_carry_chain", "id_beyond_2^16_bits", "extract_id_beyond_2^16_bits", "t2_near_group_order"]);
     let pr = r9::params();
     let nm1 = &pr.n - 1u32;
     let two320: BigUint = BigUint::one() << 320;
@@ -136,11 +136,13 @@ pub fn run(ctx: &mut Ctx) {
         let idl = match i % 10 {
             0 => 0,
             1 => 300,
+            // beyond the 2^16-bit / 2^16-byte thresholds of length fields and counters
+            2 if i % 40 == 2 => [8185usize, 8186, 8191, 8192, 8193, 20000, 65536, 70001][((i / 40) % 8) as usize],
             _ => prng.range(1, 80),
         };
         let id = prng.bytes(idl);
         let hid = [1u8, 2, 3, 0, 0xff][(i % 5) as usize];
-        let wl = prng.range(0, 400);
+        let wl = if i % 40 == 22 { [8185usize, 8192, 65536, 70001][((i / 40) % 4) as usize] } else { prng.range(0, 400) };
         let w = prng.bytes(wl);
         if !ctx.mine(i) {
             continue;
@@ -150,6 +152,9 @@ pub fn run(ctx: &mut Ctx) {
         }
         if idl == 300 {
             ctx.class("id_long");
+        }
+        if idl >= 8185 {
+            ctx.class("id_beyond_2^16_bits");
         }
         ctx.eval();
         ctx.class("h1");
@@ -234,6 +239,48 @@ pub fn run(ctx: &mut Ctx) {
                 ctx.class("t1_limb_ladder");
                 ctx.class(&format!("t1_ladder:{}", pat));
                 extract_case(ctx, &k, &id, hid, "t1_limb_ladder");
+            }
+        }
+    }
+    // --- extraction for identities beyond 8 KiB
+    {
+        let mut pl = ctx.prng("long_id");
+        for (li, idl) in [8185usize, 8186, 8192, 20000, 70001].iter().enumerate() {
+            let id = pl.bytes(*idl);
+            let k = scalar_for(&mut pl, 100);
+            if !ctx.mine(li as u64) {
+                continue;
+            }
+            for hid in [1u8, 2, 3] {
+                ctx.class("extract_id_beyond_2^16_bits");
+                extract_case(ctx, &k, &id, hid, "id_beyond_2^16_bits");
+            }
+        }
+    }
+    // --- master key crafted so that the extracted scalar t2 = ks (H1 + ks)^-1 is N - j or j for small j: the fixed-base
+    // multiplication recodes scalars near the group order into digits whose partial sums meet table points again
+    {
+        let mut pl = ctx.prng("t2_near_N");
+        let jmax = ctx.n(160, 600);
+        for j in 1..=jmax {
+            let idl = pl.range(1, 12);
+            let id = pl.bytes(idl);
+            if !ctx.mine(j) {
+                continue;
+            }
+            for hid in [1u8, if j % 2 == 0 { 2 } else { 3 }] {
+            let h = r9::h1(&id, hid);
+            for t2 in [&pr.n - BigUint::from(j), BigUint::from(j + 1)] {
+                // t2 (H1 + ks) = ks  =>  ks = t2 H1 / (1 - t2)
+                let one_minus = (&pr.n + 1u32 - &t2) % &pr.n;
+                let Some(inv) = one_minus.modinv(&pr.n) else { continue };
+                let k = (&t2 * &h % &pr.n) * inv % &pr.n;
+                if k.is_zero() || r9::extract_scalar(&k, &id, hid) != Some(t2.clone()) {
+                    continue;
+                }
+                ctx.class("t2_near_group_order");
+                extract_case(ctx, &k, &id, hid, "t2_near_group_order");
+            }
             }
         }
     }
